@@ -473,8 +473,8 @@ def cpp_values(enums, structs):
 # Python side
 # ------------------------------------------------------------------------------------------------------------
 
-def py_tables(extra_values=()):
-    p = subprocess.run([vf.PY, os.path.join(vf.VERIF, 'harness', 'py', 'c03_dump.py')], env=dict(vf.IMPL_ENV, C03_EXTRA_VALUES=json.dumps(sorted(set(extra_values)))), capture_output=True, text=True, timeout=300)
+def py_tables(extra_values=(), public_only=False):
+    p = subprocess.run([vf.PY, os.path.join(vf.VERIF, 'harness', 'py', 'c03_dump.py')], env=dict(vf.IMPL_ENV, C03_EXTRA_VALUES=json.dumps(sorted(set(extra_values))), C03_PUBLIC_ONLY='1' if public_only else '0'), capture_output=True, text=True, timeout=300)
     if p.returncode != 0:
         err = '\n'.join(l for l in p.stderr.split('\n') if 'leap' not in l.lower() and 'gpstime' not in l.lower())
         raise Unrecognised('Python introspection failed:\n' + err[-3000:])
@@ -539,7 +539,9 @@ HEAD = 'From Coq Require Import ZArith List String.\nImport ListNotations.\nOpen
 def generate():
     enums, structs = scan_all()
     vals = cpp_values(enums, structs)
-    py = py_tables([v for n, v, c, r in vals['classification'] if n.startswith('(')])
+    extra = [v for n, v, c, r in vals['classification'] if n.startswith('(')]
+    py = py_tables(extra)
+    py['public'] = py_tables(extra, public_only=True)
     ex = load_exceptions()
     for e in enums:
         got = [m for m, _ in vals['enum_values'].get(e['short'], [])]
@@ -579,6 +581,7 @@ def generate():
         return u
     t = vf.gen_header(['python/fusion_engine_client/**/*.py (import + introspection; then harness/py/c03_exercise.py uses the library and the tables are read again)']) + HEAD
     t += py_defs(py, '', 'as read right after import')
+    t += py_defs(py['public'], '_public', 'as read in an interpreter that has only done `from fusion_engine_client.messages import *` and `import fusion_engine_client.parsers`')
     t += py_defs(py['after_use'], '_after', 'as read again in the same interpreter after encode/decode of every class, the readers, DataLoader, every Analyzer plot_*/generate_* method, printing')
     vf.write_if_changed(os.path.join(vf.THEORIES, 'Generated', 'EnumsPy.v'), t)
 
